@@ -94,10 +94,7 @@ def reinterpret_expr(expr, symbols_from, symbols_to):
             elif op == OP_CONSTPOW:
                 work[o[0]] = work[i[0]]**work[i[1]]
             else:
-                print('Unknown operation: ', op)
-
-                print('------')
-                print('Evaluated ' + str(f))
+                raise Exception("Unsupported operation (%s) in expression %s: only polynomial expressions (+, -, *, integer powers) can be reinterpreted." % (str(f.instruction_MX(k)), str(expr)))
 
     return output_val[0]
 
